@@ -81,6 +81,7 @@ def check_case(acc, chain_l, cur, locking, load, duty, init=None, redeclared=Fal
         spec['declare_order'] = 'reverse'        # ... whose relations are declared from the output back to the motor
     if teeth_mode == 'equal':
         spec['declare_order'] = 'matings-first'
+        spec['load_unit'] = ['Nm', 'mNm', 'kgfcm', 'gfmm']     # ... and the load function answers in another unit at every instant
     stall = menu.stall_at_output(spec)
     spec['load'] = load_spec(load, stall)
     d = len(duty)
